@@ -140,7 +140,7 @@ def model_signed(m, term, bits):
 def patches_from_apps(m, apps):
     """Evaluate the recorded byte/word applications under model m -> {fname: {addr: bytes}}; raises on conflict."""
     out = {}
-    for kind, fname, nbytes, endian, addr_bv, val_bv in apps:
+    for kind, fname, nbytes, endian, addr_bv, val_bv, *_ in apps:
         a = model_int(m, addr_bv)
         v = model_int(m, val_bv)
         data = v.to_bytes(nbytes, "little" if endian == "le" else "big")
@@ -167,16 +167,16 @@ class Unrealisable(Exception):
 
 
 def no_partial_overlap(apps, limit=40):
-    """Realisability constraints: any two recorded applications at symbolic addresses are identical in
-    address or disjoint (words at concrete addresses are linked to bytes by axioms and are exempt)."""
+    """Realisability constraints: any two recorded applications, at least one at a symbolic address, are
+    identical in address (and width) or disjoint. Returns (bv_constraint, int_constraint) pairs."""
     cons = []
-    sym = [(n, a) for kind, f, n, e, a, v in apps if not z3.is_bv_value(z3.simplify(a))]
-    allr = [(n, a) for kind, f, n, e, a, v in apps]
+    allr = [(n, a, ai) for kind, f, n, e, a, v, ai in apps]
+    sym = [(n, a, ai) for (n, a, ai) in allr if not z3.is_bv_value(z3.simplify(a))]
     if len(sym) > limit:
         sym = sym[:limit]
     seen = set()
-    for n1, a1 in sym:
-        for n2, a2 in allr:
+    for n1, a1, i1 in sym:
+        for n2, a2, i2 in allr:
             if a1.get_id() == a2.get_id():
                 continue
             key = (min(a1.get_id(), a2.get_id()), max(a1.get_id(), a2.get_id()))
@@ -184,8 +184,10 @@ def no_partial_overlap(apps, limit=40):
                 continue
             seen.add(key)
             w = a1.size()
-            same = a1 == a2 if n1 == n2 else z3.BoolVal(False)
-            cons.append(z3.Or(same, z3.UGE(a1, a2 + z3.BitVecVal(n2, w)), z3.UGE(a2, a1 + z3.BitVecVal(n1, w))))
+            same_b = a1 == a2 if n1 == n2 else z3.BoolVal(False)
+            same_i = i1 == i2 if n1 == n2 else z3.BoolVal(False)
+            cons.append((z3.Or(same_b, z3.UGE(a1, a2 + z3.BitVecVal(n2, w)), z3.UGE(a2, a1 + z3.BitVecVal(n1, w))),
+                         z3.Or(same_i, i1 >= i2 + n2, i2 >= i1 + n1)))
     return cons
 
 
